@@ -156,7 +156,7 @@ def run(ctx):
         "amounts, Weyl increments, SplitMix64 and canonical constants are regenerated from the "
         "source on every run",
         "theorems quantify over all 2^160 xorshift states, all Weyl values and all n < 2^64; "
-        "streams_disjoint assumes a non-zero seed state (checked for the harness seeds)",
+        "the seed state written by operator=(Initializer) is proved non-zero for every seed (SplitMix64 output function injective), so reseed_streams_disjoint_all_seeds has no hypothesis on the seed",
         "IEEE: an integer below 2^53 times 2^-53 is exact (canonical value) — not modelled, "
         "checked by the harness on every canonical draw",
         "reseed index e*size+i is modelled with 64-bit wrap; disjointness is proved for "
